@@ -226,7 +226,8 @@ func (e *c07env) prepare() (target *wire.Msg, ok bool) {
 }
 
 func c07Run(seed int64, sc c07scn, res *core.Result) {
-	cfg := Config{Dotu: sc.dotu, Msize: 8192, Flush: sc.mode != "none", Auth: sc.kind == "auth", TracePoints: true}
+	cfg := Config{Dotu: sc.dotu, Msize: 8192, Flush: sc.mode != "none", Auth: sc.kind == "auth", TracePoints: true,
+		ProcOps: sc.kind == "open" || sc.kind == "create" || sc.kind == "remove"} // some targets with an implementation that takes over request processing
 	s := NewSess(cfg)
 	s.Ctl.UseGID = true // goroutine roles (runtime.Stack per point: expensive, this engine only)
 	c := s.Dial()
